@@ -76,7 +76,29 @@ func (g *scGen) typedSegment(ind int) {
 	n := core.Pick(g.r, []string{"x", "y", "v"})
 	g.tag++
 	t := g.tag
-	switch g.r.Intn(8) {
+	switch g.r.Intn(11) {
+	case 8:
+		// a constant declared in a block is a new entity there; the outer variable of that name is untouched
+		o := core.Pick(g.r, []string{"x", "y"})
+		g.line(ind, "if bump(0) > 0 {")
+		g.line(ind+1, "const %s = %d", o, g.r.Range(3, 9))
+		g.line(ind+1, "emit(%d, %s, %s*2)", t, o, o)
+		g.line(ind, "}")
+	case 9:
+		o := core.Pick(g.r, []string{"x", "y"})
+		g.line(ind, "for i := 0; i < 2; i++ {")
+		g.line(ind+1, "const %s = \"k\"", o)
+		g.line(ind+1, "emit(%d, len(%s), i)", t, o)
+		g.line(ind, "}")
+	case 10:
+		o := core.Pick(g.r, []string{"x", "y"})
+		g.line(ind, "switch {")
+		g.line(ind, "case bump(1) > 0:")
+		g.line(ind+1, "const %s = 2.5", o)
+		g.line(ind+1, "emitf(%d, %s*2)", t, o)
+		g.line(ind, "default:")
+		g.line(ind+1, "emit(%d, x, y)", t)
+		g.line(ind, "}")
 	case 0:
 		g.line(ind, "for _, %s := range []float64{1.5, 2.5} {", n)
 		g.line(ind+1, "emitf(%d, %s)", t, n)
@@ -369,7 +391,7 @@ func c08Case(seed int64, idx int) packedCase {
 var c08Budget = core.Budget{MaxSteps: 100000, MaxDepth: 200, MaxLen: 1 << 12, MaxOut: 1 << 18}
 
 func runC08(r *core.Run) {
-	r.SetRule("scope-tree functions over the names x and y (package globals, optionally also parameters): := / var / x, y := declarations (new, shadowing, mixed redeclaration), assignments (also parallel ones whose targets resolve to a local and a global), function literals with parameters named like the outer names, if with and without init, for with a loop variable from the name set, per-iteration body variables, range with key/value from the name set, switch clauses; both names are printed after every declaration, assignment and block end, and the globals after the call; plus two-package programs in which parameters, locals, block-level variables, loop and range variables, switch-clause and if-init variables are named like an imported package (or its alias, or fmt), with stores, compound assignments and ++ through them and uses of the package before and after the block, the package assigning to its own variables with = and a parallel assignment; plus segments in which a loop, range, init variable or parameter of type float64 / byte / uint32 / string is declared again in the body from a constant of another type. non-trivial = accepted by Go and at least 5 emits executed; distinct by function text")
+	r.SetRule("scope-tree functions over the names x and y (package globals, optionally also parameters): := / var / x, y := declarations (new, shadowing, mixed redeclaration), assignments (also parallel ones whose targets resolve to a local and a global), function literals with parameters named like the outer names, if with and without init, for with a loop variable from the name set, per-iteration body variables, range with key/value from the name set, switch clauses; both names are printed after every declaration, assignment and block end, and the globals after the call; plus two-package programs in which parameters, locals, block-level variables, loop and range variables, switch-clause and if-init variables are named like an imported package (or its alias, or fmt), with stores, compound assignments and ++ through them and uses of the package before and after the block, the package assigning to its own variables with = and a parallel assignment; plus segments in which a loop, range, init variable or parameter of type float64 / byte / uint32 / string is declared again in the body from a constant of another type, and constants declared in if / for / switch-clause blocks under the name of an outer variable. non-trivial = accepted by Go and at least 5 emits executed; distinct by function text")
 	r.Assume("Go toolchain (GOARCH=386) as the reference")
 	n := r.N(4000, 80000)
 	cases := make([]packedCase, n)
